@@ -100,7 +100,8 @@ impl Shard {
         // 200): the examples of recorded findings must never crowd out the one that matters
         let unknown = sig.ends_with("|-");
         let keep = if unknown { *c <= 2 && self.violations.len() < 260 } else { *c <= 3 && self.violations.len() < 60 };
-        if keep {
+        // (a monitor that limits its own examples hands over Null for the ones it did not build: counted, never stored)
+        if keep && !detail.is_null() {
             let mut d = detail;
             if let Value::Object(ref mut m) = d {
                 m.insert("sig".into(), json!(sig));
